@@ -99,7 +99,7 @@ class BcryptSHA256Hasher(PasswordHasher):
 
     def verify(self, hash: StrOrBytes, secret: StrOrBytes) -> bool:
         info = inspect_phc(as_str(hash), BcryptSHA256PHCV2)
-        if not info:
+        if not info or info.version_ != 2:
             return False
 
         hashed_password = (
@@ -118,11 +118,12 @@ class BcryptSHA256Hasher(PasswordHasher):
         )
 
     def identify(self, hash: StrOrBytes) -> bool:
-        return inspect_phc(as_str(hash), BcryptSHA256PHCV2) is not None
+        info = inspect_phc(as_str(hash), BcryptSHA256PHCV2)
+        return info is not None and info.version_ == 2
 
     def needs_update(self, hash: StrOrBytes) -> bool:
         info = inspect_phc(as_str(hash), BcryptSHA256PHCV2)
-        if not info:
+        if not info or info.version_ != 2:
             return True
         return info.rounds != self._rounds
 
